@@ -48,6 +48,23 @@ where
         _y: &ndarray::ArrayBase<Sy, ndarray::Ix1>,
         _data: &ndarray::ArrayBase<Sd, D>,
     ) -> Result<Self::FinishedStrat, crate::BuilderError> {
+        #[cfg(ndarray_interp_verif)]
+        if crate::verif_hooks::api::enabled() {
+            use crate::verif_hooks::api;
+            api::emit(format!(
+                "{{\"ev\":\"B2\",\"key\":\"B|{:p}|{:p}|{:p}|{}\",\"el\":\"{}\",\"x\":{},\"y\":{},\"ds\":{},\"dv\":{},\"st\":{{\"k\":\"Bilinear\",\"ex\":{}}},\"out\":\"Ok\"}}",
+                _x.as_ptr(),
+                _y.as_ptr(),
+                _data.as_ptr(),
+                self.extrapolate as u8,
+                api::tname::<Sd::Elem>(),
+                api::seq(_x.iter()),
+                api::seq(_y.iter()),
+                api::shape(_data.shape()),
+                api::seq(_data.iter()),
+                self.extrapolate as u8
+            ));
+        }
         Ok(self)
     }
 }
@@ -68,6 +85,20 @@ where
         x: <Sx>::Elem,
         y: <Sy>::Elem,
     ) -> Result<(), crate::InterpolateError> {
+        // call log (answered calls): keep the caller's view, work on a reborrow of it, describe the call at the end
+        #[cfg(ndarray_interp_verif)]
+        let mut verif_target = target;
+        #[cfg(ndarray_interp_verif)]
+        #[allow(unused_mut)]
+        let mut target = verif_target.view_mut();
+        #[cfg(ndarray_interp_verif)]
+        let verif_key = format!(
+            "B|{:p}|{:p}|{:p}|{}",
+            interpolator.x.as_ptr(),
+            interpolator.y.as_ptr(),
+            interpolator.data.as_ptr(),
+            self.extrapolate as u8
+        );
         if !self.extrapolate && !interpolator.is_in_x_range(x) {
             return Err(InterpolateError::OutOfBounds(format!(
                 "x = {x:?} is not in range"
@@ -95,6 +126,8 @@ where
                 let z2 = Linear::calc_frac((x1, z12), (x2, z22), x);
                 *z = Linear::calc_frac((y1, z1), (y2, z2), y)
             });
+        #[cfg(ndarray_interp_verif)]
+        crate::verif_hooks::api::query2(&verif_key, &x, &y, Some(&verif_target));
         Ok(())
     }
 }
